@@ -662,6 +662,7 @@ def rule_amibounds(ctx):
 RULES = [
     ("C06.HELPERDEFAULTS", 3, common.rule_helperdefaults("C06.HELPERDEFAULTS")),
     ("C06.BOUNDARIES", 2, common.shared("c13", "rule_boundaries", "C06.BOUNDARIES")),
+    ("C06.FRAMECOUNT", 4, common.shared("c05", "rule_framecount", "C06.FRAMECOUNT")),
     ("C06.NOOFFSETROUTE", 8, common.shared("c07", "rule_nooffsetroute", "C06.NOOFFSETROUTE")),
     ("C06.AMIBOUNDS", 1, rule_amibounds),
     ("C06.SEGTWIN", 5, rule_segtwin),
